@@ -55,7 +55,10 @@ func New(minValue, maxValue int64, sigfigs int) *Histogram {
 	subBucketHalfCountMagnitude = intish.Max(subBucketHalfCountMagnitude, 1)
 	subBucketHalfCountMagnitude--
 
-	unitMagnitude := int32(math.Floor(math.Log2(float64(minValue))))
+	// floor(log2(minValue)) computed on the integer: going through float64
+	// is one too large just below 2^k for k >= 49, which loses the
+	// promised precision for values in [minValue, 2*minValue).
+	unitMagnitude := int32(bitLen(minValue) - 1)
 	unitMagnitude = intish.Max(unitMagnitude, 0)
 
 	subBucketCount := int32(math.Pow(2, float64(subBucketHalfCountMagnitude)+1))
